@@ -7,12 +7,14 @@
 //! never panic. One JSON line per POST: {"kind":"foreign_post","method","case","in":hex,"status","panic"}.
 //! (The owner listener's bodies are driven by the c13 harness; its gate refuses everything that is
 //! not authenticated.)
+use easy_jsonrpc_mw::{Handler as RpcHandler, MaybeReply};
 use grin_api::Handler;
 use grin_keychain::ExtKeychain;
 use grin_util::{Mutex, ToHex};
 use hyper::{Body, Request};
 use serde_json::{json, Value};
 use std::sync::Arc;
+use vharness::api::{Owner, OwnerRpc};
 use vharness::controller::controller::ForeignAPIHandlerV2;
 use vharness::libwallet::api_impl::owner;
 use vharness::libwallet::{InitTxArgs, SlateVersion, VersionedSlate};
@@ -224,6 +226,79 @@ fn main() {
 			let n = p.below(200) as usize;
 			cases.push(("-".into(), "random".into(), p.bytes(n)));
 		}
+	}
+	// ---- the owner listener's dispatcher behind the session gate (what an authenticated client can send):
+	// OwnerRpc::handle_request on an api::Owner over the counterparty wallet (it has funds and a pending send)
+	if arg("replay").is_none() || arg("owner").is_some() {
+		let o = Owner::new(s.wallets[cp].inst.clone(), None);
+		let slate_v = fresh_slate(&s, &mut p);
+		let sid = slate_v["id"].as_str().unwrap_or("0436430c-2b02-624c-2032-570501212b00").to_owned();
+		let init_args = json!({"src_acct_name": null, "amount": "1000000", "minimum_confirmations": 1, "max_outputs": 500,
+			"num_change_outputs": 1, "selection_strategy_is_use_all": false, "target_slate_version": null,
+			"payment_proof_recipient_address": null, "ttl_blocks": null, "send_args": null});
+		let hex32 = "11".repeat(32);
+		let hex64 = "22".repeat(64);
+		let commit = format!("08{}", "33".repeat(32));
+		let calls: Vec<(&str, Value)> = vec![
+			("accounts", json!({"token": null})),
+			("create_account_path", json!({"token": null, "label": "acct_x"})),
+			("set_active_account", json!({"token": null, "label": "default"})),
+			("retrieve_outputs", json!({"token": null, "include_spent": false, "refresh_from_node": false, "tx_id": null})),
+			("retrieve_txs", json!({"token": null, "refresh_from_node": false, "tx_id": null, "tx_slate_id": sid})),
+			("query_txs", json!({"token": null, "refresh_from_node": false, "query": {"min_id": 0, "sort_order": "Desc", "limit": 2}})),
+			("retrieve_summary_info", json!({"token": null, "refresh_from_node": false, "minimum_confirmations": 1})),
+			("init_send_tx", json!({"token": null, "args": init_args})),
+			("issue_invoice_tx", json!({"token": null, "args": {"amount": "1000", "dest_acct_name": null, "target_slate_version": null}})),
+			("process_invoice_tx", json!({"token": null, "slate": slate_v, "args": init_args})),
+			("tx_lock_outputs", json!({"token": null, "slate": slate_v})),
+			("finalize_tx", json!({"token": null, "slate": slate_v})),
+			("post_tx", json!({"token": null, "slate": slate_v, "fluff": false})),
+			("cancel_tx", json!({"token": null, "tx_id": null, "tx_slate_id": "0436430c-2b02-624c-2032-570501212b01"})),
+			("get_stored_tx", json!({"token": null, "id": null, "slate_id": sid})),
+			("get_rewind_hash", json!({"token": null})),
+			("scan_rewind_hash", json!({"rewind_hash": hex32, "start_height": 1})),
+			("node_height", json!({"token": null})),
+			("get_slatepack_address", json!({"token": null, "derivation_index": 0})),
+			("get_slatepack_secret_key", json!({"token": null, "derivation_index": 0})),
+			("create_slatepack_message", json!({"token": null, "slate": slate_v, "sender_index": 0, "recipients": [own_addr]})),
+			("slate_from_slatepack_message", json!({"token": null, "message": "BEGINSLATEPACK. 4H1qx1wHe668tFW yC2gfL8PPd8kSgv pcXQhyRkHbyKHZg. ENDSLATEPACK.", "secret_indices": [0]})),
+			("decode_slatepack_message", json!({"token": null, "message": "BEGINSLATEPACK. 4H1qx1wHe668tFW yC2gfL8PPd8kSgv pcXQhyRkHbyKHZg. ENDSLATEPACK.", "secret_indices": [0]})),
+			("retrieve_payment_proof", json!({"token": null, "refresh_from_node": false, "tx_id": null, "tx_slate_id": sid})),
+			("verify_payment_proof", json!({"token": null, "proof": {"amount": "60000000000", "excess": commit, "recipient_address": own_addr,
+				"recipient_sig": hex64, "sender_address": own_addr, "sender_sig": hex64}})),
+			("build_output", json!({"token": null, "features": "Plain", "amount": "1000"})),
+			("create_mwixnet_req", json!({"token": null, "commitment": commit, "fee_per_hop": "5000", "lock_output": false, "server_keys": [hex32]})),
+			("get_mnemonic", json!({"name": null, "password": ""})),
+			("get_updater_messages", json!({"count": 1})),
+			("set_tor_config", json!({"tor_config": null})),
+			("get_top_level_directory", json!({})),
+		];
+		let per = (budget / 2).max(10);
+		let mut ocases: Vec<(String, String, Value)> = vec![];
+		for (m, params) in &calls {
+			let req = json!({"jsonrpc": "2.0", "method": m, "id": 1, "params": params});
+			ocases.push((m.to_string(), "valid".into(), req.clone()));
+			for (what, b) in mutations(&mut p, &req, per) {
+				if let Ok(v) = serde_json::from_slice::<Value>(&b) {
+					ocases.push((m.to_string(), what, v));
+				}
+			}
+		}
+		for (method, what, v) in ocases {
+			let body = v.to_string();
+			let o2 = &o;
+			let r = guarded(move || match <dyn OwnerRpc>::handle_request(o2, v) {
+				MaybeReply::Reply(_) => 200i64,
+				MaybeReply::DontReply => 204i64,
+			});
+			let (status, panic) = match r {
+				Ok(st) => (st, None),
+				Err(m) => (-1, Some(m.chars().take(300).collect::<String>())),
+			};
+			out.line(&json!({"kind": "owner_call", "method": method, "case": what, "in": body.as_bytes().to_vec().to_hex(), "status": status,
+				"panic": panic, "reply_is_json": true}));
+		}
+		let _ = o.stop_updater();
 	}
 	for (method, what, body) in cases {
 		let r = post(&mut rt, &h, body.clone());
